@@ -237,8 +237,13 @@ class JumpToStageHandler(StabilizeHandler[JumpToStage]):
                 }
             )
 
-            # Store jump metadata in target stage
-            target_stage.context["_jump_count"] = new_jump_count
+            # Store jump metadata in target stage. Never LOWER the target's own
+            # budget counter: overwriting it with the (possibly smaller) source
+            # count + 1 hands the target a fresh budget, so two stages jumping to
+            # each other are granted far more than max_jumps redirects.
+            target_stage.context["_jump_count"] = max(
+                target_stage.context.get("_jump_count", 0) or 0, new_jump_count
+            )
             target_stage.context["_jump_history"] = jump_history
 
             logger.info(
